@@ -15,6 +15,10 @@ EXTRA_SEEDS = [
     # functions calling each other across two modules (with its own library module)
     ('import m2\npub fn ping(n) { m2.pong(n) }\npub fn top() { ping(1) }\n', 'import m1\npub fn pong(n) { m1.ping(n) }\npub type T { W }\n'),
     ('import m2.{pong}\npub fn ping(n) { pong(n) }\n', 'import m1.{ping}\npub fn pong(n) { ping(n) }\n'),
+    # a recursion group of an imported module in which a PRIVATE function precedes a public one (generic, and ill-typed so that
+    # the order in which the group's members are inferred shows), reached through an unqualified import
+    ('import m2.{g}\npub fn top() { g(1, "s") }\n', 'fn h(a, b) { g(b, a) }\npub fn g(x, y) { h(y, x) }\nfn p() { q() + 1 }\npub fn q() { p() <> "s" }\n'),
+    ('import m2.{q}\npub fn top() { q() }\n', 'fn p() { q() + 1 }\npub fn q() { p() <> "s" }\nfn r(a) { [s(a)] }\npub fn s(b) { r(b) }\n'),
     # two modules importing each other where the back reference goes to ANOTHER, non-recursive function with a concrete type:
     # whatever the analysis makes of the cycle must not depend on which function is asked about first
     ('import m2\npub fn one() { 1 }\npub fn f() { m2.two() }\npub fn k() { #(f(), one()) }\n', 'import m1\npub fn two() { m1.one() }\npub fn three() { [two()] }\n'),
